@@ -3,7 +3,7 @@
    was run, and compared here; only the indices of disagreeing cases are printed. *)
 From Coq Require Import String.
 From Coq Require Import ZArith List Bool.
-From Verif Require Import C08.Model.
+From Verif Require Import C08.Model C08.HeapModel.
 Import ListNotations.
 
 Definition opt_eqb (a b : option Z) : bool :=
@@ -89,3 +89,28 @@ Definition arg_case_ok (r : registry) (c : Z * val * res val) : bool :=
 Definition cfg_case_ok (r : registry) (c : Z * cfg * res val) : bool :=
   let '(fam, g, e) := c in
   res_eqb (from_arg r corr_fuel fam (to_json g)) e && res_eqb (explicit r corr_fuel g) e.
+
+(* the heap model (HeapModel.v) on the same cases: the argument is stored as
+   objects, the call is run on the store, the result is read back; besides the
+   result, the store before the call must be a prefix of the store after it and
+   the argument must read back unchanged *)
+Definition read_fuel : nat := 24.
+
+Definition read_res (h : heap) (x : res hval) : res val :=
+  match x with
+  | Ok v => match read read_fuel h v with Some y => Ok y | None => Err Unmodelled end
+  | Err e => Err e
+  | Diverge => Diverge
+  end.
+
+Definition heap_run_ok (r : registry) (fam : Z) (arg : val) (e : res val) : bool :=
+  let (a, h) := load arg [] in
+  let (x, h') := hfrom_arg r corr_fuel fam a h in
+  res_eqb (read_res h' x) e && prefix_eqb h h'
+  && match read read_fuel h' a with Some y => val_eqb y arg | None => false end.
+
+Definition arg_case_heap_ok (r : registry) (c : Z * val * res val) : bool :=
+  let '(fam, arg, e) := c in heap_run_ok r fam arg e.
+
+Definition cfg_case_heap_ok (r : registry) (c : Z * cfg * res val) : bool :=
+  let '(fam, g, e) := c in heap_run_ok r fam (to_json g) e.
